@@ -6,7 +6,7 @@ import vlib
 from vlib import glist
 
 PID = "C15"
-THEOREMS = ["C15_loading_iff_latest_outstanding", "C15_stale_completion_ignored", "C15_latest_completion_wins",
+THEOREMS = ["C15_self_write_is_plain", "C15_loading_iff_latest_outstanding", "C15_stale_completion_ignored", "C15_latest_completion_wins",
             "C15_old_value_readable", "C15_value_is_some_fetch", "C15_feedback_is_plain"]
 
 
@@ -74,7 +74,17 @@ def oracle(steps, lines, fb=False):
             if k == latest and k not in done:
                 done.add(k)
                 expected_value = deps[k]
-                moved_on = fb and deps[k] % 10 == 7 and prev_val != str(deps[k])
+                if fb == "self" and deps[k] % 10 == 7:
+                    # the fetch itself moved the dependency on before returning: it was superseded before it could deliver
+                    deps.append(deps[k] + 1)
+                    if val != prev_val or load != "1":
+                        fails.append({"step": i, "what": "a fetch that was superseded (by its own dependency write, in its last poll) delivered its result, or is_loading is "
+                                                         "false although the fetch for the latest dependency value is outstanding", "value": val, "before": prev_val, "loading": load})
+                    latest = len(deps) - 1
+                    if started != str(len(deps)):
+                        fails.append({"step": i, "what": "number of fetches started differs from the number of dependency values", "started": started, "expected": len(deps)})
+                    continue
+                moved_on = fb is True and deps[k] % 10 == 7 and prev_val != str(deps[k])
                 if moved_on:
                     deps.append(deps[k] + 1)          # the feedback effect wrote the dependency: a new fetch is outstanding
                 if val != str(deps[k]) or load != ("1" if moved_on else "0"):
@@ -154,6 +164,26 @@ def main(argv):
     except RuntimeError as e:
         broken.append("model evaluation: " + str(e)[-500:])
         chk.obligation("model evaluation", False, str(e))
+    # the same histories with a PAIR of dependencies on((d, d2), ..): even writes go to d, odd ones to d2
+    ttext = "\n".join("(resource (%s) two)" % " ".join("(%s %d)" % s for s in c) for c in cases) + "\n"
+    rc, so, se = vlib.run_driver(binp, ttext, timeout=3000)
+    tblocks = so.rstrip("\n").split("\n==\n")
+    tfail = []
+    if rc != 0 or len(tblocks) != len(cases):
+        tfail.append({"steps": ["two"], "failures": [{"what": "driver run (pair of dependencies)", "stderr": se[-800:]}]})
+    else:
+        for i, (c, b) in enumerate(zip(cases, tblocks)):
+            ls = b.split("\n")
+            if ls[0] == "PANIC" or ls[-1] != "end panics=0":
+                tfail.append({"steps": ["two"] + c, "failures": [{"what": "panic", "line": ls[-1]}]})
+                continue
+            f = oracle(c, ls[:-1])
+            if f:
+                tfail.append({"steps": ["two (dependencies on((d, d2), ..); even writes to d, odd writes to d2)"] + c, "failures": f[:3], "output": ls[:-1]})
+            elif model is not None and model[i] != ls[:-1]:
+                broken.append("correspondence (pair of dependencies): " + str(c))
+    chk.obligation("oracle and correspondence on the same %d histories with a pair of dependencies on((d, d2), ..), each write going to one of them" % len(cases),
+                   not tfail and not any(b.startswith("correspondence (pair") for b in broken), str(tfail[:1]))
     # the feedback variant
     fcases = gen_fb(a.tier, rng)
     ftext = "\n".join("(resource (%s) fb)" % " ".join("(%s %d)" % s for s in c) for c in fcases) + "\n"
@@ -174,7 +204,36 @@ def main(argv):
     except (RuntimeError, NameError) as e:
         broken.append("model evaluation (feedback): " + str(e)[-500:])
         chk.obligation("model evaluation (feedback)", False, str(e))
-    mism, orfail = [], []
+    # the self-writing fetch: the fetch future moves the dependency on before it returns
+    sfail = []
+    stext = "\n".join("(resource (%s) self)" % " ".join("(%s %d)" % s for s in c) for c in fcases) + "\n"
+    rc, so, se = vlib.run_driver(binp, stext, timeout=3000)
+    sblocks = so.rstrip("\n").split("\n==\n")
+    smodel = None
+    try:
+        exprs = ["run_resources_self %s" % glist([glist([("RWrite (%d)%%Z" if s[0] == "write" else "RComplete %d") % s[1] for s in c]) for c in fcases[i:i + 200]])
+                 for i in range(0, len(fcases), 200)]
+        outs = vlib.coq_eval(PID + "w", pre, exprs, per_file=max(1, (len(exprs) + 15) // 16))
+        smodel = [b.split("\n") for o in outs for b in o.split("\n==\n")]
+    except (RuntimeError, NameError) as e:
+        broken.append("model evaluation (self-writing fetch): " + str(e)[-500:])
+    smis = []
+    if rc != 0 or len(sblocks) != len(fcases):
+        sfail.append({"steps": ["self"], "failures": [{"what": "driver run (self-writing fetch)", "stderr": se[-800:]}]})
+    else:
+        for i, (c, b) in enumerate(zip(fcases, sblocks)):
+            ls = b.split("\n")
+            if ls[0] == "PANIC" or ls[-1] != "end panics=0":
+                sfail.append({"steps": ["self"] + c, "failures": [{"what": "panic", "line": ls[-1]}]})
+                continue
+            f = oracle(c, ls[:-1], fb="self")
+            if f:
+                sfail.append({"steps": ["self (the fetch future writes dependency := value + 1 before returning a value that ends in 7)"] + c, "failures": f[:3], "output": ls[:-1]})
+            if smodel is not None and smodel[i] != ls[:-1]:
+                smis.append({"steps": ["self"] + c, "impl": ls[:-1], "model": smodel[i]})
+    chk.obligation("correspondence and oracle on %d histories in which the fetch itself moves the dependency on in its last poll (superseded before it can deliver)" % len(fcases),
+                   smodel is not None and not smis and not sfail, str((sfail + smis)[:1]))
+    mism, orfail = [], list(tfail) + sfail
     chk.obligation("oracle: disposing the scope with fetches pending never panics, neither at disposal nor when the executor drops the cancelled tasks (%d histories)" % (len(cases) + len(fcases)),
                    not endfail, str(endfail[:1]))
     for c, l in endfail[:3]:
@@ -218,7 +277,7 @@ def main(argv):
     if orfail:
         orfail.sort(key=lambda o: len(str(o["steps"])))
         chk.violation({"property": PID, "kind": "oracle failure on implementation output", "input": orfail[0], "count": len(orfail), "also_broken": broken})
-    elif mism or broken:
+    elif mism or smis or broken:
         chk.violation({"property": PID, "kind": "proof/correspondence broken, oracle clean on all inputs explored", "broken": broken,
-                       "mismatches": mism[:3], "mismatch_count": len(mism)}, no_input=True)
+                       "mismatches": (mism + smis)[:3], "mismatch_count": len(mism) + len(smis)}, no_input=True)
     return chk.finish()
